@@ -517,6 +517,34 @@ def roundtrip_oracle(ctx, case, aw_ref):
                              case, signature=f"roundtrip:{kind}", extra={"text": text, "got": py, "expected": v["book"]}))
 
 
+def excel_roundtrip_oracle(ctx, case, aw_ref, rng):
+    """The statement of `excel_roundtrip` evaluated on the implementation: plain typed grids (header as
+    text cells, data cells typed at random, no layout noise) that *show* the workbook (checked by the
+    driver with `Excel.showsAllB`) inside `Excel.ExcelOK` must be read by pyxform's xls and xlsx code as
+    the model's dict container."""
+    from pyxform import xls2json_backends as b
+
+    def choose(text, is_header):
+        ts = C.typings(text)
+        return "text" if is_header and text != "" else rng.choice(ts)
+
+    if any(h == "" for s_ in aw_ref["sheets"] for h in s_["header"]):
+        return
+    grids = C.typed_grid(aw_ref, choose)
+    for which in ("xlsx", "xls"):
+        cells = [[[FN.cell_json(v if which == "xlsx" else C.xls_cell(t, v)[1] if t != "bool" else bool(v)) for t, v in row]
+                  for row in g["grid"]] for g in grids]
+        v = ctx.driver.call("be.excel_guard", sheets=aw_ref["sheets"], grids=cells)
+        ctx.count(f"guard:{which}:{'inside' if v['ok'] else 'outside'}")
+        if not v["ok"]:
+            continue
+        data = C.to_xlsx(grids) if which == "xlsx" else C.to_fake_xls(grids)
+        py = FN.py_outcome(b.xlsx_to_dict if which == "xlsx" else b.xls_to_dict, data)
+        if py != {"outcome": "ok", "book": v["book"]}:
+            ctx.fail(Failure(f"roundtrip-{which}", f"{which}_to_dict of typed grids showing wb is not the dict container of wb although the guard of excel_roundtrip holds",
+                             case, signature=f"roundtrip:{which}", extra={"grids": [[g["name"], [[repr(x) for _t, x in r] for r in g["grid"]]] for g in grids], "got": py, "expected": v["book"]}))
+
+
 def case_run(ctx, case, scratch: C.Scratch, full: bool = True):
     """case = {"aw": …, "layout": …, "channels": seed}"""
     aw = case["aw"]
@@ -566,6 +594,9 @@ def case_run(ctx, case, scratch: C.Scratch, full: bool = True):
         # pyxform's own sheet code (headers, rows, typed cells) against the model, grid by grid
         FN.sheet_pipe_case(ctx, grids, "xls")
         FN.sheet_pipe_case(ctx, grids, "xlsx")
+        FN.workbook_pipe_case(ctx, grids, "xls", rendered["xls"])
+        FN.workbook_pipe_case(ctx, grids, "xlsx", rendered["xlsx"])
+        excel_roundtrip_oracle(ctx, case, aw_ref, rng)
 
     for container, data in rendered.items():
         chans = C.channels_for(container)
